@@ -151,6 +151,8 @@ def check_case(chk, st, tr, F, interp, with_table, system, cell_opt, rng, sample
     try:
         df, proxy = X.run_single_path(lambda: run_callback(env, st, tr, F, interp, ntv, system, p_min, dp, dp * sample_mult if sample_mult else None), name="C18:" + name)
     except SymError as e:
+        # an undecided guard stops the symbolic run: look at the real code on concrete data before calling it inconclusive
+        replay_cli(chk, rng, "symbolic run stopped: %s" % e, interp)
         chk.inconclusive(name, str(e))
         return
     except Exception as e:
